@@ -57,7 +57,7 @@ def jobs(tier, seed):
         for a in range(0, len(pats), chunk):
             J.append(dict(name="unpack:%dlines:%d-%d" % (k, a, min(len(pats), a + chunk) - 1), kind="unpack", k=k, pats=pats[a : a + chunk], timeout=1500, cost=10 * k * chunk))
     J.append(dict(name="unpack:longline", kind="unpack", k=2, pats=[(0, ["contig"]), (0, ["gap1"])], lens=[250, 2], timeout=900, cost=200))
-    for shape in ("one-main", "one-loader", "one-peripheral-sm4200", "one-ble", "two-sections", "ignored-prepare", "no-marker", "gap-in-blob", "unknown-tagtype", "unmapped-known-tagtype"):
+    for shape in ("one-main", "one-loader", "one-peripheral-sm4200", "one-ble", "two-sections", "crc-then-no-crc", "ignored-prepare", "no-marker", "gap-in-blob", "unknown-tagtype", "unmapped-known-tagtype"):
         J.append(dict(name="import:%s" % shape, kind="import", shape=shape, timeout=900, cost=100))
     for n in (1, 2, 3):
         J.append(dict(name="pfid2:%dentries" % n, kind="pfid2", n=n, timeout=900, cost=50 * n))
@@ -214,6 +214,12 @@ def run_job(job):
                 l2, p2 = section(0x84, 1, tag="b")
                 objs = fwline + marker + [("load", l1), ("REBOOT", {}), ("CHECK_FWVER", {"VERSIONDESC": "*"}), ("load", l2), ("REBOOT", {})]
                 expect = [dict(type=b"\x01", fmt=b"\x00", blob=b"".join(p1), reboot=True), dict(type=b"\x02", fmt=b"\x02", blob=b"".join(l.rawdata for l in l2), reboot=True)]
+            elif shape == "crc-then-no-crc":
+                # instructions of one section must not leak into the next one
+                l1, p1 = section(0x35, 1, tag="a")
+                l2, p2 = section(0x3D, 1, tag="b")
+                objs = marker + [("load", l1), ("CRC", "0x0000BEEF"), ("SELECT_IF", {"PROTOCOL": "*"}), ("REBOOT", {}), ("load", l2), ("REBOOT", {})]
+                expect = [dict(type=b"\x01", fmt=b"\x00", blob=b"".join(p1), reboot=True, crc=(0xBEEF).to_bytes(4, "big"), hwcid=bf.HWCID_MAP["SM4200"].to_bytes(2, "big")), dict(type=b"\x01", fmt=b"\x00", blob=b"".join(p2), reboot=True, hwcid=bf.HWCID_MAP["PN5180"].to_bytes(2, "big"))]
             elif shape == "unknown-tagtype":
                 ls, ps = section(0x10, 1, tag="a")
                 objs = marker + [("load", ls), ("REBOOT", {})]
@@ -227,11 +233,18 @@ def run_job(job):
                 runner.record_witness(why="accepted although %s expected" % reject.__name__)
                 return False
             ok = len(f.components) == len(expect)
-            comps = sorted(f.components, key=lambda c: c.description[bf.BF3TAG.TYPE])
-            for c, e in zip(comps, sorted(expect, key=lambda e: e["type"])):
+            comps = list(f.components)
+            exps = list(expect)
+            if len({e["type"] for e in exps}) == len(exps):
+                comps = sorted(comps, key=lambda c: c.description[bf.BF3TAG.TYPE])
+                exps = sorted(exps, key=lambda e: e["type"])
+            for c, e in zip(comps, exps):
                 d = c.description
                 ok = ok and d.get(0xC3) == e["type"] and d.get(0xC1) == e["fmt"] and c.blob == e["blob"] and (d.get(0xC5) == b"\x01") == e["reboot"]
-                for key, tag in (("intf", 0xC6), ("crc", 0xC7), ("pfid2", 0xC9), ("fwver", 0xC8)):
+                # exact tag set: a tag the instructions of this section do not state must be absent
+                for key, tag in (("crc", 0xC7), ("pfid2", 0xC9)):
+                    ok = ok and d.get(tag) == e.get(key)
+                for key, tag in (("intf", 0xC6), ("fwver", 0xC8), ("hwcid", 0xC4)):
                     if key in e:
                         ok = ok and d.get(tag) == e[key]
             ok = ok and f.comments.get("Bf3Update") == "1" and all(("Component%d" % i) in f.comments for i in range(len(expect)))
@@ -377,6 +390,15 @@ def replay(job):
             txt += line(0x10, 0, b"\xAA") + end + "#>REBOOT\n"
         elif shape == "no-marker":
             txt = line(0x84, 0, b"\xAA") + end + "#>REBOOT\n"
+        elif shape == "crc-then-no-crc":
+            txt += line(0x35, 0, b"\xAA\xBB") + end + "##CRC: 0x0000BEEF\n#>REBOOT\n" + line(0x3D, 0, b"\xCC") + end + "#>REBOOT\n"
+            try:
+                f = bf.Bf3File.bf2_import(io.StringIO(txt))
+            except Exception as e:
+                return dict(reproduced=True, signature="C13:import:" + shape, detail="%s: %s" % (type(e).__name__, e))
+            crcs = [c.description.get(0xC7) for c in f.components]
+            bad = sorted(x is not None for x in crcs) != [False, True]
+            return dict(reproduced=bad, signature="C13:import:" + shape, detail="BF2 text with ##CRC on the first section only -> CRC tags %s" % crcs)
         else:
             txt += line(0x35, 0, b"\xAA\xBB") + line(0x35, 2, b"\xCC\xDD") + end + "#>REBOOT\n"
         try:
